@@ -1,2 +1,54 @@
-From Coq Require Import List.
-Theorem C10_placeholder : True. Proof. exact I. Qed.
+(* C10 - concurrent use from several threads behaves like some serial order.
+   Model/Conc.v: threads execute registry methods as read / compute-on-a-copy / write with an
+   optional lock; Model/Registry.v is the sequential meaning of every method.  The lock flags of
+   the real methods are regenerated from frontend/backend.py (Gen/GenRegistry.v). *)
+From Coq Require Import String List ZArith Bool Arith.
+From EinxV Require Import Model.Registry Model.Conc Proofs.ConcProofs Gen.GenRegistry.
+Import ListNotations.
+
+(* every BackendRegistry method that assigns self.state does so while holding use_lock *)
+Theorem C10_all_state_replacing_methods_hold_the_lock :
+  forallb (fun m => snd m) gen_registry_methods = true.
+Proof. vm_compute. reflexivity. Qed.
+
+(* For any number of threads, any programs and any schedule (pre-emption between any two
+   micro-steps): if every method holds the lock, the completion order is a serial execution of
+   the same operations - respecting every thread's program order - with the same final registry
+   state and the same result for every call. *)
+Theorem C10_locked_schedules_are_serialisable :
+  forall (locked : rop -> bool), (forall o, locked o = true) ->
+  forall s0 progs sched,
+    let g := run_sched locked (ginit s0 progs) sched in
+    finished g ->
+    shared g = fst (serial s0 (log g))
+    /\ forall i t p0, nth_error (threads g) i = Some t -> nth_error progs i = Some p0 ->
+         ops_of i (log g) = p0 /\ outs t = results_of i (snd (serial s0 (log g))).
+Proof. exact locked_serialisable. Qed.
+Print Assumptions C10_locked_schedules_are_serialisable.
+
+(* Without the lock on get() (the pinned tree before the fix) a schedule exists whose outcome no
+   serial order produces: T0 = [enter b; exit b], T1 = [lookup]; T1 reads the state before
+   T0's push and writes it back afterwards, so the push is lost and exit fails. *)
+Definition bA : backend := {| bid := 1; bname := 5; bprio := 0%Z; bfw := 1; bvalid := true |}.
+Definition unlocked_get (o : rop) : bool := match o with RLookup _ _ => false | _ => true end.
+Definition progsF8 : list (list rop) := [[REnter bA; RExit (Some bA)]; [RLookup (BObj bA) []]].
+Definition schedF8 : list nat := [1; 0; 0; 1; 0; 0].
+
+Theorem C10_unlocked_get_refuted :
+  let g := run_sched unlocked_get (ginit ([1], rinit) progsF8) schedF8 in
+  finished g /\
+  (exists t, nth_error (threads g) 0 = Some t /\ outs t = [ResNone; ResAssert]) /\
+  (* whereas in every serial order both operations of T0 succeed *)
+  forall l, In l [[(0, REnter bA); (0, RExit (Some bA)); (1, RLookup (BObj bA) [])];
+                  [(0, REnter bA); (1, RLookup (BObj bA) []); (0, RExit (Some bA))];
+                  [(1, RLookup (BObj bA) []); (0, REnter bA); (0, RExit (Some bA))]] ->
+            results_of 0 (snd (serial ([1], rinit) l)) = [ResNone; ResNone].
+Proof.
+  split; [|split].
+  - intros i t H. destruct i as [|[|i]]; vm_compute in H.
+    + injection H as H. subst t. split; reflexivity.
+    + injection H as H. subst t. split; reflexivity.
+    + destruct i; discriminate.
+  - eexists. split; vm_compute; reflexivity.
+  - intros l [<-|[<-|[<-|[]]]]; vm_compute; reflexivity.
+Qed.
